@@ -605,6 +605,18 @@ func vwRandomRoots(rng *rand.Rand, dirs [][]string) []vwRoot {
 	mk := func(at []string) vwRoot {
 		rel := strings.Join(at, "/")
 		shown := append([]string{}, at...)
+		if rng.Intn(5) == 0 { // the same directory spelled through a child: CHILD/..
+			var kids [][]string
+			for _, d := range dirs {
+				if len(d) == len(at)+1 && vwKey(d[:len(at)]) == vwKey(at) {
+					kids = append(kids, d)
+				}
+			}
+			if len(kids) > 0 {
+				via := append(append([]string{}, kids[rng.Intn(len(kids))]...), "..")
+				return vwRoot{Arg: strings.Join(via, "/"), At: at, Shown: via}
+			}
+		}
 		if len(at) == 0 {
 			switch rng.Intn(8) {
 			case 0:
